@@ -463,6 +463,23 @@ def run(run):
             idx += 1
             if run.mine(idx):
                 grown_binding(run, k, root)
+        # two CAN bindings under ONE name for different structs: the first fits, the second does not (or is
+        # variable-size) - each binding is measured on its own
+        for k in range(run.pick(12, 120)):
+            idx += 1
+            if not run.mine(idx):
+                continue
+            r = run.rng("same-name", k)
+            if k % 3:
+                big = sized_struct(r, "Big", r.choice([65, 72, 80, 96]), r.choice(["first", "last", "array"]))
+                what = "an oversize binding sharing its name with a fitting binding of another struct"
+            else:
+                big, _pos = variable_struct(r, "Big", r.choice(["str", "opt", "dyn-in-nested"]))
+                what = "a variable-size binding sharing its name with a fitting binding of another struct"
+            good = good_bindings(r, 1, 200)
+            good[-1]["name"] = "Shared"
+            body = good + big + [can_impl("Big", 100, alias="Shared")]
+            judge(run, body, True, what, root)
         # big-endian signals at arbitrary (also unaligned) positions and widths: generation may refuse
         # them; whatever it does emit must still keep every signal inside its message and apart
         n_be = run.pick(120, 2000)
